@@ -297,7 +297,7 @@ func (env *Env) evalRenaming(x *Expr, first error) (*Term, error) {
 		used[nw] = true
 	}
 	for k := range env.vars {
-		if mentioned[k] || used[k] || strings.HasPrefix(k, "$") || strings.HasPrefix(k, "result") || k == "err" || fieldNames[k] || !token.IsIdentifier(k) {
+		if mentioned[k] || used[k] || strings.HasPrefix(k, "$") || strings.HasPrefix(k, "result") || k == "err" || !token.IsIdentifier(k) {
 			continue
 		}
 		cands = append(cands, k)
@@ -370,6 +370,40 @@ func (env *Env) evalRenaming(x *Expr, first error) (*Term, error) {
 		}
 		if len(pref) == 1 {
 			sols = pref
+		}
+	}
+	if len(sols) > 1 {
+		// still ambiguous: keep the assignments under which every other pre/postcondition of the contract
+		// type-checks as well (errors about further unknown identifiers do not count)
+		var ok []sol
+		for _, s := range sols {
+			next := map[string]string{}
+			for k, v := range saved {
+				next[k] = v
+			}
+			for k, v := range s.assign {
+				next[k] = v
+			}
+			c.renames = next
+			bad := false
+			probe := *env
+			if probe.old == nil {
+				probe.old = probe.st
+			}
+			for _, cls := range [][]*Clause{c.Requires, c.Ensures} {
+				for _, cl := range cls {
+					if _, err := probe.eval0(cl.Expr); err != nil && unknownIdentRe.FindStringSubmatch(err.Error()) == nil {
+						bad = true
+					}
+				}
+			}
+			c.renames = saved
+			if !bad {
+				ok = append(ok, s)
+			}
+		}
+		if len(ok) == 1 {
+			sols = ok
 		}
 	}
 	if len(sols) != 1 {
@@ -987,6 +1021,9 @@ func (env *Env) call(x *Expr) *Term {
 			if args[i].Sort != f.Args[i] {
 				efail("argument %d of %s: got sort %s, want %s", i+1, x.Name, args[i].Sort, f.Args[i])
 			}
+		}
+		if x.Name == "quote" && len(args) == 1 && args[0].Op == "#str" {
+			return quoteTerm(args[0]) // strconv.Quote of a literal is evaluated
 		}
 		name := x.Name
 		rd, isRec := spec.recdefs[x.Name]
